@@ -159,7 +159,7 @@ def run_sim(chk, n_cfg):
         pv = rng.choice([47, 340, 498, 578, 754, 757])
         ids = proto.Ids(pv)
         thr = rng.choice([None, 64])
-        kids = [rng.randrange(1, 2 ** 31) for _ in range(rng.randrange(1, 5))]
+        kids = [rng.randrange(1, 2 ** 31) for _ in range(rng.choice([1, 2, 3, 4, 4, 49, 50, 51, 120]))]      # bursts across the 50-reads-per-turn limit too
         frames = []
         if thr is not None:
             frames.append(proto.frame(ids.set_compression, proto.varint(thr)))
